@@ -120,6 +120,17 @@ def isMatchedI32 (stepSize offset : Int) (index : Nat) : Option Bool :=
     else if n == i32Min && stepSize == -1 then none
     else some (decide (Int.tdiv n stepSize ≥ 0) && Int.tmod n stepSize == 0)
 
+/-- `parse_an_b` after FIX_C11_3 (checked arithmetic): a number that leaves the `i32` range is
+reported as `InvalidSyntax` at the digit where the pinned code overflows -/
+def parseAnBChecked (input : List Char) : Except AnBError (Int × Int) :=
+  match parseAnB input with
+  | .error .overflow => .error .invalidSyntax
+  | r => r
+
+/-- `is_matched` after FIX_C11_3: computed in `i64` on `i32` operands, where neither
+`index - offset` nor `n / step_size` can leave the range: the mathematical function -/
+def isMatchedChecked (stepSize offset : Int) (index : Nat) : Bool := isMatched stepSize offset index
+
 /-- `resolve_char(opt, dft, len)` -/
 def resolveChar (opt : Option Int) (dft len : Int) : Nat :=
   let c := opt.getD dft
